@@ -250,6 +250,19 @@ def lin_jobs(rng, tier):
             e = rnd_expr(rng)
             jobs.append({"fam": "lin", "nt": nt, "op": "e_build", "via": "b%d" % e["b"], "da": e})
             jobs.append({"fam": "lin", "nt": nt, "op": rng.choice(["e_add", "e_sub"]), "via": "ee", "da": rnd_expr(rng), "db": rnd_expr(rng)})
+            # operands DERIVED from one another (copy, +/- a number): they may share their representation
+            if rng.random() < 0.5:
+                a = rnd_expr(rng)
+                k = rng.choice(["copy", "addc", "addc", "addc64", "subc", "chain"])
+                n_ = 0 if k == "copy" else rng.randint(-6, 6)
+                b = dict(a)
+                b["c"] = a["c"] + (-n_ if k == "subc" else n_)
+                dv = {"k": k, "n": n_}
+                jobs.append({"fam": "lin", "nt": nt, "op": rng.choice(["e_sub", "e_sub", "e_add"]), "via": "ee", "da": a, "db": b, "derive": dv})
+                rel = rng.choice(["<=", "<", ">=", ">", "==", "!="])
+                sw = rng.randint(0, 1)
+                jobs.append({"fam": "lin", "nt": nt, "op": "c_make", "via": "ee", "i64": 0, "da": b if sw else a, "db": a if sw else b,
+                             "rel": rel, "derive": dv, "swap": sw, "base": a})
             jobs.append({"fam": "lin", "nt": nt, "op": "e_neg", "via": "e", "da": rnd_expr(rng)})
             jobs.append({"fam": "lin", "nt": nt, "op": "e_scale", "via": rng.choice(["en", "ne"]), "i64": rng.choice([0, 1]),
                          "da": rnd_expr(rng), "n": rng.choice([-7, -2, -1, 0, 0, 1, 2, 3, 5])})
